@@ -111,7 +111,7 @@ def fault_matches(kind: str, ob: Dict[str, Any], backend: str) -> bool:
     return st in ("THROW", "FAILURE")
 
 
-def compare_event(ref, ob: Optional[Dict[str, Any]], backend: str, tol: float) -> Optional[str]:
+def compare_event(ref, ob: Optional[Dict[str, Any]], backend: str, tol: float, col_tols: Optional[List[float]] = None) -> Optional[str]:
     "None if the observation agrees with the (decided) reference outcome, else a description"
     if ob is None or ob["status"] is None:
         return "event never ran to an EVENT_END record"
@@ -134,7 +134,7 @@ def compare_event(ref, ob: Optional[Dict[str, Any]], backend: str, tol: float) -
         if len(e) != len(g):
             return f"row {i}: column count differs: expected {e!r:.200}, got {g!r:.200}"
         for c, (x, y) in enumerate(zip(e, g)):
-            if not same(x, y, tol):
+            if not same(x, y, max(tol, col_tols[c]) if col_tols and c < len(col_tols) else tol):
                 return f"row {i} column {c}: expected {x!r:.200}, job wrote {y!r:.200}"
     return None
 
@@ -199,6 +199,8 @@ class Engine:
         s = case.schema or sch.fixed(case.backend)
         tol = 1e-5 if uses_float(s, case.query) else 1e-9
         idxs = idxs if idxs is not None else list(range(len(case.events)))
+        # a column booked as (vector of) float carries 24 bits and is logged with 9 significant digits
+        col_tols = [1e-6 if "float" in b["type"] else 0.0 for b in (run["book"][0]["branches"] if run.get("book") else [])]
         out = {"decided": 0, "unspec": 0, "faults": 0, "rows": 0, "mismatch": None, "harness": None}
         for pos, k in enumerate(idxs):
             ref = refs[k]
@@ -214,7 +216,7 @@ class Engine:
                 out["faults"] += 1
             else:
                 out["rows"] += len(ref[1])
-            why = compare_event(ref, ob, case.backend, tol)
+            why = compare_event(ref, ob, case.backend, tol, col_tols)
             if why is not None:
                 out["mismatch"] = {"event": k, "why": why, "reference": repr(ref[:2])[:500],
                                    "observed": (repr({kk: vv for kk, vv in ob.items() if kk != 'retrieves'})[:600] if ob else None)}
